@@ -143,6 +143,13 @@ class Ctx:
     def goal(self, name, cond, kind='post'):
         self.goals.append((name, bool(cond), kind))
 
+    def summarize(self, name, arr, fact):
+        self.goals.append((f"lemma:{name}.summary", bool(fact(arr)), 'lemma'))
+        return arr
+
+    def lemma(self, name, cond):
+        self.goals.append((f"lemma:{name}", bool(cond), 'lemma'))
+
     def goal_eq(self, name, A, B, kind='post'):
         A = np.asarray(A); B = np.asarray(B)
         if A.shape != B.shape:
